@@ -242,7 +242,7 @@ theorem spec_bounds {D : Dataset} : ∀ (P : Alg), P.inFragment = true → (∀ 
       · cases he
     · have := spec_bounds a hf.1 hwsa g μ ha
       exact ⟨this.1, fun v hv => List.mem_append.mpr (Or.inl (this.2 v hv))⟩
-  | .minus a b _, hf, hws, g, μ, h => by
+  | .minus a b _ _, hf, hws, g, μ, h => by
     simp only [Alg.inFragment, Bool.and_eq_true] at hf
     simp only [Spec.eval, minusBag, List.mem_filter] at h
     exact spec_bounds a hf.1 (fun v hv => hws v (by simp [Alg.allVars, hv])) g μ h.1
